@@ -78,7 +78,73 @@ fn rd_edits(r: &mut Rd, g: bool) -> R<Vec<String>> {
     })
 }
 
+fn tmp() -> String {
+    let d = match std::env::var("TU_HARNESS_TMP") {
+        Ok(root) => format!("{root}/sp"),
+        Err(_) => format!("/verif/work/sp-{}", std::process::id()),
+    };
+    std::fs::create_dir_all(&d).ok();
+    d
+}
+
+/// `spellprep`: the spelling-corruption preprocessing step with edit tables the crate builds itself from a
+/// characters file (3-grams `prev cur next<TAB>frequency`; the separators inside a key are any white space, so one
+/// 3-gram can occur under several spellings), which chains `edit_word` with the returned exclusion sets.
+/// request: seed, character-edit probability (permille), full_delete, text, entries (prev, cur, next, freq, separator kind)
+fn exec_spellprep(a: &[u64]) -> Result<Outcome, String> {
+    use text_utils::data::preprocessing::{preprocessing, Part, PreprocessingFnConfig, SpellingCorruptionMode};
+    use text_utils::data::{TextDataInfo, TrainData};
+    let mut r = Rd::new(a);
+    let seed = r.nat()?;
+    let char_p = r.nat()? as f64 / 1000.0;
+    let full_delete = r.bool()?;
+    let text = r.string()?;
+    let entries: Vec<(String, String, String, u64, u64)> = r.list(|r| Ok((r.string()?, r.string()?, r.string()?, r.nat()?, r.nat()?)))?;
+    r.end()?;
+    if text.split_whitespace().collect::<Vec<_>>().join(" ") != text {
+        return Err("text is not whitespace-clean".into());
+    }
+    let mut keys = HashSet::new();
+    let mut file = String::new();
+    for (a, b, c, f, sep) in &entries {
+        if [a, b, c].iter().any(|x| x.is_empty() || x.chars().any(char::is_whitespace)) || *f == 0 {
+            return Err("bad 3-gram entry".into());
+        }
+        let key = match sep {
+            0 => format!("{a} {b} {c}"),
+            1 => format!("{a}  {b} {c}"),
+            2 => format!("{a} {b}\u{3000}{c}"),
+            _ => return Err("bad separator kind".into()),
+        };
+        if !keys.insert(key.clone()) {
+            return Err("duplicate key".into());
+        }
+        file.push_str(&format!("{key}\t{f}\n"));
+    }
+    let path = format!("{}/chars-{}.tsv", tmp(), std::process::id());
+    std::fs::write(&path, file).map_err(|e| e.to_string())?;
+    let f = preprocessing(PreprocessingFnConfig::SpellingCorruption(Part::Input, 1.0, full_delete, SpellingCorruptionMode::Artificial(char_p, 2.0, Some(path.into()))));
+    let mut o = Outcome::new("terminates".to_string());
+    // several random streams per request (a faulty table entry must also be drawn)
+    for k in 0..24u64 {
+        let info = TextDataInfo { seed: seed.wrapping_add(k), file_idx: 0, marks: Default::default() };
+        let (item, _) = f(TrainData::new(text.clone(), None), info.clone()).map_err(|e| e.to_string())?;
+        let (item2, _) = f(TrainData::new(text.clone(), None), info).map_err(|e| e.to_string())?;
+        o.check(item.verif_target() == text, "target was modified");
+        o.check(item.verif_input() == item2.verif_input(), "not a deterministic function of (text, seed)");
+        let out = item.verif_input();
+        o.check(out.split_whitespace().collect::<Vec<_>>().join(" ") == out, "corrupted text is not whitespace-clean");
+        if !full_delete {
+            o.check(out.split_whitespace().count() == text.split_whitespace().count(), "a word disappeared or was split although words cannot be deleted completely");
+        }
+    }
+    Ok(o)
+}
+
 pub fn exec(op: &str, a: &[u64]) -> Result<Outcome, String> {
+    if op == "spellprep" {
+        return exec_spellprep(a);
+    }
     if op != "editword" {
         return Err(format!("unknown op {op}"));
     }
@@ -292,6 +358,50 @@ fn rand_edits(ctx: &mut Ctx, allow_empty: bool) -> Vec<String> {
 }
 
 pub fn run_c15(ctx: &mut Ctx) {
+    // the preprocessing step with tables built from a characters file
+    let np = ctx.budget(60, 3000);
+    for _ in 0..np {
+        let letters = ["a", "b", "c", "x", "\u{e4}", "<bow>", "<eow>"];
+        let mut entries: Vec<(String, String, String, u64, u64)> = vec![];
+        for _ in 0..ctx.rng.random_range(1..=14) {
+            let pick = |ctx: &mut Ctx, lo: usize, hi: usize| letters[ctx.rng.random_range(lo..hi)].to_string();
+            let e = (pick(ctx, 0, 6), pick(ctx, 0, 5), { let x = pick(ctx, 0, 7); if x == "<bow>" { "c".to_string() } else { x } }, ctx.rng.random_range(1..=90u64), [0u64, 0, 0, 1, 2][ctx.rng.random_range(0..5)]);
+            if !entries.iter().any(|o| (&o.0, &o.1, &o.2, o.4) == (&e.0, &e.1, &e.2, e.4)) {
+                entries.push(e);
+            }
+        }
+        // the same 3-gram under another spelling of its separators (a second key for the same context and character)
+        for k in 0..entries.len() {
+            if ctx.rng.random_bool(0.4) {
+                let mut e = entries[k].clone();
+                e.4 = (e.4 + 1 + ctx.rng.random_range(0..2u64)) % 3;
+                e.3 = ctx.rng.random_range(1..=90u64);
+                if !entries.iter().any(|o| (&o.0, &o.1, &o.2, o.4) == (&e.0, &e.1, &e.2, e.4)) {
+                    entries.push(e);
+                }
+            }
+        }
+        // words that contain the contexts of the table
+        let text: String = (0..ctx.rng.random_range(1..=4))
+            .map(|_| {
+                let e = &entries[ctx.rng.random_range(0..entries.len())];
+                let part = |x: &String| if x.starts_with('<') { String::new() } else { x.clone() };
+                let w = format!("{}{}{}", part(&e.0), part(&e.1), part(&e.2));
+                if ctx.rng.random_bool(0.5) { w } else { format!("{w}{}", ["a", "b", "x"][ctx.rng.random_range(0..3)]) }
+            })
+            .collect::<Vec<_>>()
+            .join(" ");
+        let mut v = vec![crate::gen::seed(&mut ctx.rng), [0u64, 200, 1000][ctx.rng.random_range(0..3)], ctx.rng.random_bool(0.5) as u64];
+        enc_str(&mut v, &text);
+        v.push(entries.len() as u64);
+        for (a, b, c, f, sep) in &entries {
+            enc_str(&mut v, a);
+            enc_str(&mut v, b);
+            enc_str(&mut v, c);
+            v.extend([*f, *sep]);
+        }
+        ctx.case("spellprep", &v);
+    }
     let n = ctx.budget(1500, 60000);
     for i in 0..n {
         let g = ctx.rng.random_bool(0.5);
